@@ -229,7 +229,7 @@ pub fn run(ctx: &Ctx, model: &mut Model, rep: &mut Report) {
         }
     }
     D40_OPEN.store(known::is_open(ctx, "C16", "D40"), std::sync::atomic::Ordering::Relaxed);
-    let n = if ctx.thorough { 150 } else { 12 };
+    let n = if ctx.thorough { 150 } else { 30 };
     for i in 0..n {
         let mut r = Rng::for_case(ctx.seed ^ 0xC16, i as u64);
         let lib = match i % 3 {
